@@ -4,6 +4,7 @@ import (
 	"strings"
 	"fmt"
 	"os"
+	"os/exec"
 	"path/filepath"
 	"sort"
 	"sync"
@@ -16,6 +17,7 @@ import (
 	"github.com/MichaelMure/git-bug/commands/execenv"
 	"github.com/MichaelMure/git-bug/entities/bug"
 	"github.com/MichaelMure/git-bug/repository"
+	"github.com/MichaelMure/git-bug/util/process"
 	"github.com/MichaelMure/git-bug/zzverif/verifrt"
 )
 
@@ -73,12 +75,30 @@ type World struct {
 	nextPid int
 	curPid  int
 	live    map[int]bool
+	// RealPids: simulated processes carry the pids of real idle children (set before the first NewPid)
+	RealPids bool
+	children map[int]*exec.Cmd
 }
 
-// NewPid starts a simulated process and makes it the current one.
+// NewPid starts a simulated process and makes it the current one. With RealPids the simulated
+// process is backed by an operating-system process (an idle child) whose pid it carries, and
+// whether a pid is alive is answered by git-bug's own util/process.IsRunning against the
+// operating system instead of the simulator's table.
 func (w *World) NewPid() int {
 	w.pidMu.Lock()
 	defer w.pidMu.Unlock()
+	if w.RealPids {
+		c := exec.Command("/bin/sleep", "300")
+		if err := c.Start(); err == nil {
+			pid := c.Process.Pid
+			w.children[pid] = c
+			w.live[pid] = true
+			w.curPid = pid
+			w.Stats.Probe("process_backed_by_a_real_pid")
+			return pid
+		}
+		w.Stats.Probe("real_pid_spawn_failed")
+	}
 	w.nextPid++
 	pid := 4000 + w.nextPid
 	w.live[pid] = true
@@ -88,10 +108,37 @@ func (w *World) NewPid() int {
 
 func (w *World) SetCurPid(pid int) { w.pidMu.Lock(); w.curPid = pid; w.pidMu.Unlock() }
 
-func (w *World) EndPid(pid int) { w.pidMu.Lock(); delete(w.live, pid); w.pidMu.Unlock() }
+// EndPid is the death of a simulated process (for a real one: SIGKILL, then reaped like a
+// shell reaps its children, so the pid is really gone).
+func (w *World) EndPid(pid int) {
+	w.pidMu.Lock()
+	delete(w.live, pid)
+	c := w.children[pid]
+	delete(w.children, pid)
+	w.pidMu.Unlock()
+	if c != nil {
+		_ = c.Process.Kill()
+		_, _ = c.Process.Wait()
+	}
+}
 
-func (w *World) PidLive(pid int) bool { w.pidMu.Lock(); defer w.pidMu.Unlock(); return w.live[pid] }
-
+func (w *World) PidLive(pid int) bool {
+	w.pidMu.Lock()
+	real := w.RealPids
+	l := w.live[pid]
+	_, backed := w.children[pid]
+	w.pidMu.Unlock()
+	if real && (backed || !l) {
+		// a pid of the 4000 range that is alive is a simulated process whose child could not be
+		// started; everything else is asked of the operating system through git-bug's own code
+		got := process.IsRunning(pid)
+		if got != l {
+			w.Stats.Probe("real_IsRunning_differs_from_process_table")
+		}
+		return got
+	}
+	return l
+}
 
 var processRoot string
 
@@ -137,6 +184,7 @@ func NewWorld(seed uint64, keepLog bool) *World {
 		Log:   &EventLog{Keep: keepLog},
 		Stats: &Stats{Faults: map[string]int{}, Probes: map[string]int{}},
 		live:  map[int]bool{},
+		children: map[int]*exec.Cmd{},
 		IdleWall: 1_700_000_000,
 	}
 	_ = os.MkdirAll(w.Root, 0o755)
@@ -159,6 +207,14 @@ func NewWorld(seed uint64, keepLog bool) *World {
 func (w *World) Close() {
 	for _, r := range w.Reps {
 		r.drop()
+	}
+	w.pidMu.Lock()
+	left := w.children
+	w.children = map[int]*exec.Cmd{}
+	w.pidMu.Unlock()
+	for _, c := range left {
+		_ = c.Process.Kill()
+		_, _ = c.Process.Wait()
 	}
 	verifrt.SetNow(nil)
 	verifrt.SetPid(nil, nil)
